@@ -8,7 +8,6 @@ read back through dclab and through raw h5py (or parsed, for .tsv) and compared
 with the generator's own arrays restricted to the events the source's filter
 selects at export time."""
 import copy
-import pathlib
 import warnings
 
 import numpy as np
@@ -69,7 +68,7 @@ TDMS = ["fmt-tdms_2fl-no-image_2017", "fmt-tdms_shapein-2.0.1-no-image_2017"]
 
 def plan(tier):
     if tier == "quick":
-        return {"runs": 640, "budget_s": 48, "run_timeout_s": 180, "det_pairs": 3}
+        return {"runs": 600, "budget_s": 32, "run_timeout_s": 180, "det_pairs": 3, "min_tests": 60, "min_wall": 6.0}
     return {"runs": 60000, "budget_s": 780, "run_timeout_s": 240, "det_pairs": 3}
 
 
